@@ -125,6 +125,8 @@ def check(ctx):
             else:
                 other.append((key, fn, b, bad))
     ctx.floor("inventory", "io::Result call sites in the lib", total, 400)
+    from . import poscontrol
+    poscontrol.result_fate_control(ctx)
     for key, fn, b in dropped:
         ctx.check(key in DROPPED_ALLOW, "no-dropped-result", "%s->%s" % (short(key[0]), key[1]),
                   "the io::Result of %s is dropped in %s (not on the allow-list)" % (key[1], fn.id), where=where(fn, b))
